@@ -404,6 +404,7 @@ PROPS["C13"] = {
     "min_evals": {"quick": 250, "thorough": 10000},
     "legs": [
         Leg("script", "c13", "^TestScript$", engine="fault-injection", checks=(80, 2500), shards=(16, 32), tests=["script"]),
+        Leg("large-tolerance", "c13", "^TestLargeTolerance$", engine="fault-injection", checks=(1, 3), shards=(2, 4), tests=["large-tolerance"]),
         Leg("script-race", "c13", "^TestScript$", engine="fault-injection", race=True, checks=(60, 1200), shards=(4, 16), tests=["script"]),
     ],
 }
